@@ -109,20 +109,151 @@ Ltac step_cases Hs :=
          end;
   try discriminate; inversion Hs; subst; clear Hs.
 
+Lemma free_x_true g : free_x g = true -> owner g = None /\ (shcap g = true -> nsh g = O).
+Proof.
+  unfold free_x. destruct (owner g); [discriminate|]. destruct (shcap g); intros H; split; auto; try discriminate.
+  intros _. apply Nat.eqb_eq. exact H.
+Qed.
+Lemma free_x_false g : free_x g = false -> owner g <> None \/ (shcap g = true /\ nsh g <> O).
+Proof.
+  unfold free_x. destruct (owner g); [left; discriminate|]. destruct (shcap g); intros H; [|discriminate].
+  right. split; auto. apply Nat.eqb_neq. exact H.
+Qed.
+Lemma free_s_true g : free_s g = true -> owner g = None.
+Proof. unfold free_s. destruct (owner g); [discriminate|reflexivity]. Qed.
+Lemma free_s_false g : free_s g = false -> owner g <> None.
+Proof. unfold free_s. destruct (owner g); discriminate. Qed.
+
+Ltac ptw Hl := rewrite ?(pcof_upd _ _ _ _ _ Hl), ?(locof_upd _ _ _ _ _ Hl).
+
 (* ================================================================== *)
-(* Layer 1: the three kinds of mutexes                                  *)
+(* Layer 1a: the outer mutex                                            *)
 (* ================================================================== *)
-Record Inv1 (g : glob) (ls : list loc) : Prop := {
+Record XInv (g : glob) (ls : list loc) : Prop := {
   X1 : forall u, holdsX (pcof ls u) = true -> owner g = Some u;
   X2 : forall a, owner g = Some a -> holdsX (pcof ls a) = true \/ (shcap g = false /\ shl (locof ls a) = 1%nat);
   X3 : shcap g = true -> nsh g = list_sum (map shl ls);
   X4 : shcap g = true -> owner g <> None -> nsh g = O;
   X5 : shcap g = false -> forall u, (1 <= shl (locof ls u))%nat ->
-       owner g = Some u /\ holdsX (pcof ls u) = false /\ shl (locof ls u) = 1%nat;
-  L1 : forall u, holdsL (pcof ls u) = true -> lmtx g = Some u;
-  L2 : forall a, lmtx g = Some a -> holdsL (pcof ls a) = true;
-  T1 : forall u k, tmof (pcof ls u) = Some k -> tmtx g k = Some u;
-  T2 : forall k a, tmtx g k = Some a -> tmof (pcof ls a) = Some k;
-  H1 : forall u h, pcof ls u = H_rel h -> hlookup h (hand (locof ls u)) = Some true;
-  H2 : forall u, rdh (pcof ls u) = true -> (1 <= nown (hand (locof ls u)))%nat
+       owner g = Some u /\ holdsX (pcof ls u) = false /\ shl (locof ls u) = 1%nat
 }.
+
+(* the kinds of transitions of a thread with respect to the outer mutex *)
+Section XKinds.
+  Variables (g g' : glob) (ls : list loc) (t : nat) (l l' : loc).
+  Hypothesis HI : XInv g ls.
+  Hypothesis Hl : nth_error ls t = Some l.
+  Hypothesis Hcap : shcap g' = shcap g.
+
+  Let Hp := pcof_at _ _ _ Hl.
+  Let Hlo := locof_at _ _ _ Hl.
+
+  Lemma XK_same : owner g' = owner g -> nsh g' = nsh g -> holdsX (at_ l') = holdsX (at_ l) -> shl l' = shl l ->
+    XInv g' (upd ls t l').
+  Proof.
+    intros Ho Hn Hx Hs.
+    pose proof (X1 _ _ HI) as HX1; pose proof (X2 _ _ HI) as HX2; pose proof (X3 _ _ HI) as HX3;
+    pose proof (X4 _ _ HI) as HX4; pose proof (X5 _ _ HI) as HX5.
+    pose proof (sum_upd shl ls t l l' Hl) as Hsum.
+    constructor; rewrite ?Hcap, ?Ho, ?Hn.
+    - intros u; ptw Hl. destruct (Nat.eqb_spec u t) as [->|Hne]; [rewrite Hx, <- Hp|]; auto.
+    - intros u; ptw Hl. destruct (Nat.eqb_spec u t) as [->|Hne]; [rewrite Hx, Hs, <- Hp, <- Hlo|]; auto.
+    - intros Hc. rewrite (HX3 Hc). lia.
+    - exact HX4.
+    - intros Hc u; ptw Hl. destruct (Nat.eqb_spec u t) as [->|Hne]; [rewrite Hx, Hs, <- Hp, <- Hlo|]; auto.
+  Qed.
+
+  Ltac xprep :=
+    pose proof (X1 _ _ HI) as HX1; pose proof (X2 _ _ HI) as HX2; pose proof (X3 _ _ HI) as HX3;
+    pose proof (X4 _ _ HI) as HX4; pose proof (X5 _ _ HI) as HX5;
+    pose proof (HX1 t) as HX1t; pose proof (HX2 t) as HX2t; pose proof (fun H => HX5 H t) as HX5t;
+    pose proof (sum_upd shl ls t l l' Hl) as Hsum;
+    pose proof (sum_term_le shl ls t eq_refl) as Hle;
+    rewrite ?Hp, ?Hlo in *.
+  Ltac xpt u := intros u; ptw Hl; destruct (Nat.eqb_spec u t) as [->|Hne].
+
+  (* exclusive try-lock succeeded *)
+  Lemma XK_acqX : free_x g = true -> owner g' = Some t -> nsh g' = nsh g ->
+    holdsX (at_ l) = false -> holdsX (at_ l') = true -> shl l' = shl l -> XInv g' (upd ls t l').
+  Proof.
+    intros Hf Ho Hn Hx Hx' Hs. apply free_x_true in Hf as [Hf1 Hf2]. xprep.
+    constructor; rewrite ?Hcap, ?Ho, ?Hn.
+    - xpt u; [reflexivity|]. intros Hu. specialize (HX1 u Hu). congruence.
+    - xpt u; [auto|]. intros E. congruence.
+    - intros Hc. rewrite (HX3 Hc). lia.
+    - intros Hc _. auto.
+    - intros Hc. xpt u.
+      + rewrite Hs. intros H1. destruct (HX5t Hc H1) as [E _]. congruence.
+      + intros H1. destruct (HX5 Hc u H1) as [E _]. congruence.
+  Qed.
+
+  (* the exclusive lock is released *)
+  Lemma XK_relX : holdsX (at_ l) = true -> holdsX (at_ l') = false -> owner g' = None -> nsh g' = nsh g ->
+    shl l' = shl l -> XInv g' (upd ls t l').
+  Proof.
+    intros Hx Hx' Ho Hn Hs. xprep. specialize (HX1t Hx).
+    constructor; rewrite ?Hcap, ?Ho, ?Hn.
+    - xpt u; [congruence|]. intros Hu. specialize (HX1 u Hu). congruence.
+    - discriminate.
+    - intros Hc. rewrite (HX3 Hc). lia.
+    - intros _ H. contradiction.
+    - intros Hc. xpt u.
+      + rewrite Hs. intros H1. destruct (HX5t Hc H1) as [_ [E _]]. congruence.
+      + intros H1. destruct (HX5 Hc u H1) as [E _]. congruence.
+  Qed.
+
+  (* shared acquisition / release with a shared-capable mutex *)
+  Lemma XK_acqS : shcap g = true -> owner g = None -> owner g' = None -> nsh g' = S (nsh g) ->
+    holdsX (at_ l) = false -> holdsX (at_ l') = false -> shl l' = S (shl l) -> XInv g' (upd ls t l').
+  Proof.
+    intros Hc Hf Ho Hn Hx Hx' Hs. xprep.
+    constructor; rewrite ?Hcap, ?Ho, ?Hn.
+    - xpt u; [congruence|]. intros Hu. specialize (HX1 u Hu). congruence.
+    - discriminate.
+    - intros _. rewrite (HX3 Hc). lia.
+    - intros _ H. contradiction.
+    - congruence.
+  Qed.
+  Lemma XK_relS : shcap g = true -> owner g' = owner g -> nsh g' = pred (nsh g) ->
+    holdsX (at_ l) = false -> holdsX (at_ l') = false -> shl l = S (shl l') -> XInv g' (upd ls t l').
+  Proof.
+    intros Hc Ho Hn Hx Hx' Hs. xprep.
+    constructor; rewrite ?Hcap, ?Ho, ?Hn.
+    - xpt u; [congruence|]. auto.
+    - xpt u; [|auto]. intros E. destruct (HX2t E) as [H|[H _]]; congruence.
+    - intros _. rewrite (HX3 Hc) in *. lia.
+    - intros _ H. rewrite (HX4 Hc H). reflexivity.
+    - congruence.
+  Qed.
+
+  (* shared acquisition / release with a plain mutex: an exclusive lock owned by the handle *)
+  Lemma XK_acqP : shcap g = false -> free_x g = true -> owner g' = Some t -> nsh g' = nsh g ->
+    holdsX (at_ l) = false -> holdsX (at_ l') = false -> shl l' = S (shl l) -> XInv g' (upd ls t l').
+  Proof.
+    intros Hc Hf Ho Hn Hx Hx' Hs. apply free_x_true in Hf as [Hf1 Hf2]. xprep.
+    assert (shl l = O) as Hz.
+    { destruct (shl l) eqn:E; [reflexivity|]. destruct (HX5t Hc) as [E1 _]; [lia|congruence]. }
+    constructor; rewrite ?Hcap, ?Ho, ?Hn.
+    - xpt u; [congruence|]. intros Hu. specialize (HX1 u Hu). congruence.
+    - xpt u; [|congruence]. intros _. right. split; [exact Hc|lia].
+    - congruence.
+    - congruence.
+    - intros _. xpt u.
+      + intros _. repeat split; auto. lia.
+      + intros H1. destruct (HX5 Hc u H1) as [E _]. congruence.
+  Qed.
+  Lemma XK_relP : shcap g = false -> owner g' = None -> nsh g' = nsh g ->
+    holdsX (at_ l) = false -> holdsX (at_ l') = false -> shl l = S (shl l') -> XInv g' (upd ls t l').
+  Proof.
+    intros Hc Ho Hn Hx Hx' Hs. xprep.
+    destruct (HX5t Hc) as [E1 [_ E2]]; [lia|].
+    constructor; rewrite ?Hcap, ?Ho, ?Hn.
+    - xpt u; [congruence|]. intros Hu. specialize (HX1 u Hu). congruence.
+    - discriminate.
+    - congruence.
+    - congruence.
+    - intros _. xpt u.
+      + intros H1. lia.
+      + intros H1. destruct (HX5 Hc u H1) as [E _]. congruence.
+  Qed.
+End XKinds.
